@@ -242,7 +242,7 @@ Section Model.
     | _ => match r_fx st, r_fy st with
            | Some xs, Some ys =>
              match canon_fields xs ys with
-             | [] => None                                         (* zip(*[]) cannot be unpacked *)
+             | [] => None                                         (* zip of an empty list cannot be unpacked *)
              | fs => Some (mkD (r_ap st) (r_ftype st) fs (r_wdata st) (r_wprim st) (r_surfs st))
              end
            | _, _ => None                                         (* KeyError 'x' / 'y' *)
